@@ -453,3 +453,11 @@ Definition eq_coerce (ra : res addr) (x : arg) : res bool :=
 Definition canon_bool_r (r : res bool) : list Z := canon_r (fun b => [zb b]) r.
 Definition canon_pack (r : res (list N)) : list Z := canon_r canon_str r.
 Definition canon_unpack (p : str * N) : list Z := canon_str (fst p) ++ [zN (snd p)].
+
+(* decode_address called on an object that already holds state — left by an earlier accepted
+   notation, by a REFUSED one (e.g. "5:256" stores network 5 before the station check raises)
+   or by a typed constructor: type, network, octets, length and route are reset first
+   (pdu.py:91-97), so the result is a function of the argument alone.  (The IP helper attributes
+   are not reset by the code: they stay from an earlier IP notation when the new one is not an
+   IP form; they take no part in str(), ==, _tuple() and are not compared in that case.) *)
+Definition decode_on (history : list arg) (a : arg) : res addr := decode_address a.
